@@ -11,6 +11,12 @@
 //! Observation (all through the contract's own queries, plus the raw keys the cw4 spec publishes):
 //!   admin hooks members total  mh=<addr>@<h>:<w|->,…  th=<h>:<w>,…  rawtotal=<n|->  rawmem=<addr>:<w|->,…
 // SCENARIO cw4group crate::scen_cw4group::GroupScen::new()
+// SCENARIO cw4groupwide crate::scen_cw4group::GroupScen::new_wide()
+//
+// `cw4groupwide` (C20): a pool of 36 addresses, member lists of 0–36, UpdateMembers adding many at once and
+// frequent explicit `query list_members` ops, so the listing exceeds the default and the maximum page size.
+// Header field `wide=1`: the at-height probes (`mh`, `th`) use only the last 3 recorded heights (plus h0-1,
+// current, current+1) — the Lean driver does the same.
 use crate::common::*;
 use cosmwasm_std::testing::{mock_env, MockApi, MockQuerier};
 use cosmwasm_std::{
@@ -36,6 +42,8 @@ pub struct GroupScen {
     h0: u64,
     /// heights at which an `inst`/`exec` op succeeded since instantiation
     heights: BTreeSet<u64>,
+    /// `cw4groupwide`: 36 addresses (C20)
+    wide: bool,
 }
 
 fn new_deps() -> Deps {
@@ -65,7 +73,14 @@ impl GroupScen {
             seed: 0,
             h0: 0,
             heights: BTreeSet::new(),
+            wide: false,
         }
+    }
+
+    pub fn new_wide() -> Self {
+        let mut s = Self::new();
+        s.wide = true;
+        s
     }
 
     fn q<T: serde::de::DeserializeOwned>(&self, msg: QueryMsg) -> Option<T> {
@@ -99,8 +114,12 @@ impl GroupScen {
         for _ in 0..10_000 {
             match self.q::<MemberListResponse>(QueryMsg::ListMembers { start_after: cursor.clone(), limit }) {
                 Some(p) if !p.members.is_empty() => {
-                    cursor = Some(p.members.last().unwrap().addr.clone());
+                    let next = Some(p.members.last().unwrap().addr.clone());
                     out.extend(p.members);
+                    if next == cursor {
+                        break; // no progress (a defect in the code under test): do not walk forever
+                    }
+                    cursor = next;
                 }
                 _ => break,
             }
@@ -109,7 +128,12 @@ impl GroupScen {
     }
 
     fn probe_heights(&self) -> Vec<u64> {
-        let mut hs = self.heights.clone();
+        let mut hs: BTreeSet<u64> = if self.wide {
+            // wide: only the 3 most recent recorded heights
+            self.heights.iter().rev().take(3).cloned().collect()
+        } else {
+            self.heights.clone()
+        };
         hs.insert(self.h0.saturating_sub(1));
         hs.insert(self.env.block.height);
         hs.insert(self.env.block.height + 1);
@@ -252,7 +276,7 @@ impl GroupScen {
             3..=20 => format!("+{}", self.pool[0]),
             _ => format!("+{}", rng.pick(&self.pool)),
         };
-        let n = rng.below(7) as usize;
+        let n = if self.wide { rng.below(self.pool.len() as u64 + 1) as usize } else { rng.below(7) as usize };
         let mut ms = vec![];
         let mut sum: u64 = 0;
         let start = rng.below(self.pool.len() as u64) as usize;
@@ -262,7 +286,7 @@ impl GroupScen {
             } else {
                 format!("+{}", self.pool[(start + i * 5) % self.pool.len()]) // distinct, unsorted
             };
-            let w: u64 = match rng.below(12) {
+            let w: u64 = match if self.wide && rng.chance(19, 20) { 11 } else { rng.below(12) } {
                 0 | 1 => 0,
                 2 => u64::MAX - sum,
                 3 => (u64::MAX - sum).saturating_add(rng.below(2)).max(1),
@@ -274,6 +298,21 @@ impl GroupScen {
             ms.push(format!("{a}:{w}"));
         }
         format!("inst admin={} members={}", admin, ms.join(","))
+    }
+
+    /// wide: an explicit page request; cursor = an existing member, any pool address, a non-key string or none
+    fn gen_page_query(&self, rng: &mut Rng) -> String {
+        let lim = *rng.pick(&["-", "0", "1", "9", "10", "11", "29", "30", "31", "32", "100"]);
+        let members = self.list_all(Some(30));
+        let after = match rng.below(8) {
+            0 | 1 => "-".to_string(),
+            2 => format!("+{}", rng.pick(&self.pool)),
+            3 => "-cosmwasm1m".to_string(),
+            4 if rng.chance(1, 2) => format!("-{INVALID_ADDR}"),
+            _ if !members.is_empty() => format!("+{}", rng.pick(&members).addr),
+            _ => "-".to_string(),
+        };
+        format!("query list_members after={after} limit={lim}")
     }
 
     fn gen_query(&self, rng: &mut Rng) -> String {
@@ -313,9 +352,10 @@ impl GroupScen {
 impl Scenario for GroupScen {
     fn start(&mut self, seed: u64, trace: u64) -> String {
         let api = MockApi::default();
-        let p = pool(&api, 6);
+        let p = pool(&api, if self.wide { 36 } else { 6 });
         let header = format!(
-            "scenario cw4group seed={} trace={} pool={}",
+            "scenario {} seed={} trace={} pool={}",
+            if self.wide { "cw4groupwide wide=1" } else { "cw4group" },
             seed,
             trace,
             p.iter().map(|a| a.to_string()).collect::<Vec<_>>().join(",")
@@ -333,6 +373,7 @@ impl Scenario for GroupScen {
         self.seed = a.u64("seed");
         self.h0 = 0;
         self.heights = BTreeSet::new();
+        self.wide = a.get("wide") == Some("1");
     }
 
     fn gen_op(&mut self, rng: &mut Rng, _step: usize) -> String {
@@ -352,25 +393,28 @@ impl Scenario for GroupScen {
         if r < 26 {
             return self.gen_query(rng);
         }
+        if self.wide && r < 50 {
+            return self.gen_page_query(rng);
+        }
         let admin = self.admin();
         let snd = match &admin {
             Some(a) if rng.chance(6, 7) => Addr::unchecked(a.clone()),
             _ => rng.pick(&self.pool).clone(),
         };
         let k = rng.below(100);
-        if k < 60 {
+        if k < 60 || (self.wide && k < 85) {
             let members = self.list_all(Some(30));
             // adds
             let mut add = vec![];
-            let na = *rng.pick(&[0usize, 1, 1, 2, 2, 3, 4]);
+            let na = if self.wide { *rng.pick(&[0usize, 1, 2, 4, 8, 12, 20, 30]) } else { *rng.pick(&[0usize, 1, 1, 2, 2, 3, 4]) };
             let start = rng.below(self.pool.len() as u64) as usize;
             for i in 0..na {
-                let a = if rng.chance(1, 16) {
+                let a = if rng.chance(1, if self.wide { 150 } else { 16 }) {
                     self.gen_addr(rng, 3) // duplicate or invalid
                 } else {
                     format!("+{}", self.pool[(start + i * 5) % self.pool.len()])
                 };
-                let w = self.gen_weight(rng, &addr_text(&a));
+                let w = if self.wide && rng.chance(14, 15) { 1 + rng.below(40) } else { self.gen_weight(rng, &addr_text(&a)) };
                 add.push(format!("{a}:{w}"));
             }
             // removes: members, non-members, addresses also being added, repeats
